@@ -252,7 +252,7 @@ fn nas_strings(tier: Tier) -> Vec<String> {
                 // thin out deterministically: keep a Latin-square style subset
                 let keep = match tier {
                     Tier::Quick => (mi + 2 * si + 3 * ei) % 11 == 0,
-                    Tier::Thorough => (mi + 2 * si + 3 * ei) % 3 == 0,
+                    Tier::Thorough => true,
                 };
                 if !keep {
                     continue;
@@ -283,7 +283,7 @@ fn nas_strings(tier: Tier) -> Vec<String> {
     out.dedup();
     let cap = match tier {
         Tier::Quick => 120,
-        Tier::Thorough => 400,
+        Tier::Thorough => 1500,
     };
     // deterministic spread over the sorted list
     if out.len() > cap {
